@@ -77,6 +77,9 @@ func loadEngine(repo string, overlay map[string][]byte) (*Engine, error) {
 			if fn.TypeParams().Len() > 0 && len(fn.TypeArgs()) == 0 {
 				continue // generic template; instantiations are verified
 			}
+			if fn.Synthetic == "package initializer" {
+				continue
+			}
 			openInst := false
 			for _, ta := range fn.TypeArgs() {
 				if _, isTP := ta.(*types.TypeParam); isTP {
